@@ -227,6 +227,10 @@ def cases(tier):
     for kind in ("shared", "crossbar"):         # masters of different address widths, the narrower one first
         for register in (False, True):
             cs.append(Case(f"{kind}(2x3,register={register},regions=B,madr=[14,30])", c_ic, kind, 2, 3, register, "B", [14, 30]))
+    # the shared interconnect WITH its time-out (the default of SoCBusHandler): "each request receives exactly one termination ... reach the issuing
+    # master": the contracts of C11 (transparency while the slave answers in time, forced termination exactly at expiry, recovery) are obligations of C06 too
+    from contracts.C11_timeout import c_wb_shared_timeout
+    cs += [Case("InterconnectShared(2x2,timeout=4)", c_wb_shared_timeout, 2, 2, 4), Case("InterconnectShared(2x3,timeout=3,register)", c_wb_shared_timeout, 2, 3, 3, True)]
     cs.append(Case("p2p", c_p2p))
     cs += [Case(f"SoCBusHandler.map({sc})", c_handler_map, sc) for sc in ("alloc", "explicit", "mixed")]
     cs += [Case(f"decoder(dw={dw},{ok})", c_decoder_window, [2, 3, 12, 16, 31] if tier == "quick" else list(range(2, 32)), dw, ok) for dw in (32, 64) for ok in ("zero", "mid", "top")]
